@@ -84,7 +84,7 @@ def run_event(fn, obj, env):
         return e
 
 
-def explore(make_obj, make_env, events, snapshot, ctx, case, max_states=64, max_depth=None):
+def explore(make_obj, make_env, events, snapshot, ctx, case, max_states=64, max_depth=None, perturb=None):
     """
     Returns dict(states=, transitions=, outcomes=, fixpoint=bool).
     events: list of (name, fn).  make_env() -> dict of caller-owned arrays (fresh each time).
@@ -111,7 +111,8 @@ def explore(make_obj, make_env, events, snapshot, ctx, case, max_states=64, max_
             o2 = copy.deepcopy(obj)
             env = make_env()
             env_before = {k: canon(v) for k, v in env.items()}
-            res = canon(run_event(fn, o2, env))
+            raw = run_event(fn, o2, env)
+            res = canon(raw)
             transitions += 1
             ctx.tick()
             outcomes.add((name, res))
@@ -134,6 +135,16 @@ def explore(make_obj, make_env, events, snapshot, ctx, case, max_states=64, max_
             ctx.tick()
             if res2 != res:
                 ctx.fail("repeated-query-identical", dict(case, history=list(h2) + [name]), observed=res2, expected=res)
+            # a result is a value: later queries (same query with other arguments, the next query of the
+            # alphabet) must not change an object that was returned earlier
+            if perturb is not None:
+                for pn, pf in perturb(name):
+                    run_event(pf, o2, make_env())
+                    transitions += 1
+                    ctx.tick()
+                if canon(raw) != res:
+                    ctx.fail("returned-result-not-overwritten-by-later-queries", dict(case, history=list(h2)),
+                             observed=canon(raw), expected=res)
             k3 = snapshot(o2)
             if k3 not in seen:
                 if len(seen) >= max_states:
